@@ -85,6 +85,14 @@ func timeoutSetup(s *rt.Sim, tier string) func() {
 		if target == init && chance("cfg", 1, 2) {
 			minLen = 1 // come back to the initial state later: then its timer applies
 		}
+		// knob (own stream): a longer walk than the shortest one, so that the target is entered
+		// after several other states have been visited (and dwelt in, below)
+		if k := rt.Choose("cfg.z", 4); k > 0 {
+			if lp := pathTo(sm, init, target, k+1); lp != nil {
+				minLen = k + 1
+				rt.Hit("timeout.longer-walk")
+			}
+		}
 		path := pathTo(sm, init, target, minLen)
 		if path == nil && target != init {
 			rt.Hit("timeout.unreachable-target")
@@ -115,6 +123,27 @@ func timeoutSetup(s *rt.Sim, tier string) func() {
 			return peer.sendMsg(impl.Id, peerIsResponder, msgBytes(msg)) == nil
 		}
 		for _, e := range path {
+			// the agency holder of a state on the way may take its time, within the state's
+			// limit (0.6 of it): no timeout error may come of that, and the time spent there
+			// must not change when the timers of the states after it fire
+			if rt.Choose("op.z", 3) == 2 {
+				pe := sm[e.from]
+				d := 30 * time.Second
+				if pe.Timeout > 0 {
+					d = pe.Timeout * 6 / 10
+				}
+				if pe.TimeoutFunc != nil {
+					d = chainsync.MustReplyTimeoutMin * 6 / 10
+				}
+				rt.Hit("timeout.dwell-on-the-way")
+				sleep(d)
+				for _, err := range ep.errs {
+					if strings.Contains(err.Error(), "timeout waiting on transition") {
+						rt.Violate("C14/spurious-timeout", "%s %s: on the way to %s the agency holder of state %s moved after %v (0.6 of its limit), yet: %v", impl.Label, roleName(localRole), target.Name, e.from.Name, d, err)
+						return
+					}
+				}
+			}
 			if !move(e.from, e.tr) {
 				rt.Hit("timeout.path-failed")
 				return
